@@ -18,7 +18,7 @@ from . import clustersim
 from .clustersim import _CUR, _patch_once, _SimNet
 from .common import Chooser, fingerprint
 from .fakeshm import HostStore
-from .genjob import build_job, job_specs
+from .genjob import build_job, job_specs, same_value
 from .lockstep import Coroutine, current
 from .refeval import evaluate
 
@@ -238,7 +238,7 @@ def run_case(c: dict, holder: dict | None = None) -> tuple[bool, list[str], Any,
                 continue
             if e is None:
                 breaches.append(("output-not-published", f"task {t} finished but {ds} is not in the host's store"))
-            elif cloudpickle.loads(bytes(e["data"])) != ref[(t, o2)]:
+            elif not same_value(cloudpickle.loads(bytes(e["data"])), ref[(t, o2)]):
                 breaches.append(("output-wrong", f"{ds} = {cloudpickle.loads(bytes(e['data']))!r}, reference {ref[(t, o2)]!r}"))
             if sum(1 for m in pubs if m.ds == ds) != 1:
                 breaches.append(("publication-count", f"{ds} announced {sum(1 for m in pubs if m.ds == ds)} times by the worker"))
